@@ -335,3 +335,53 @@ theorem nbr_involutive {g : GridShape} (hv : g.valid = true) {i j n : Nat} (hi :
           simp
 
 end Strengths
+
+namespace Strengths
+open Gen
+
+/-- what a neighbour slot of the engine's table contains: per axis one `axisStep` of the cell's coordinates -/
+theorem engNbr_some {g : GridShape} (hv : g.valid = true) {i j n : Nat} (hi : i < g.size) (hn : n < 6)
+    (h : engNbr? g i n = some j) :
+    ∃ a b c, axisStep g.px g.w ((i : Int) % g.w) (dirDeltaOn n 0) = some a ∧
+      axisStep g.py g.h ((i : Int) % (g.w * g.h) / g.w) (dirDeltaOn n 1) = some b ∧
+      axisStep g.pz g.d ((i : Int) / (g.w * g.h)) (dirDeltaOn n 2) = some c ∧
+      (0 ≤ a ∧ a < g.w) ∧ (0 ≤ b ∧ b < g.h) ∧ (0 ≤ c ∧ c < g.d) ∧
+      (j : Int) = a + b * g.w + c * (g.w * g.h) := by
+  obtain ⟨hw, hh, hd⟩ := GridShape.valid_pos hv
+  have hi0 : (0 : Int) ≤ i := Int.natCast_nonneg i
+  have hi1 : (i : Int) < (g.w : Int) * g.h * g.d := by rw [← size_cast]; exact_mod_cast hi
+  obtain ⟨hx, hy, hz, hsum⟩ := encode_decode hw hh hi0 hi1
+  obtain ⟨mx, my, mz⟩ := mesh_coords hv i
+  unfold engNbr? at h
+  simp only [engNeighbor, mx, my, mz] at h
+  rw [engNeighborOfCoords_eq g n hn hx hy hz] at h
+  cases hxs : axisStep g.px (↑g.w) ((i : Int) % g.w) (dirDeltaOn n 0) with
+  | none => rw [hxs] at h; simp [nbrNone] at h
+  | some a =>
+    cases hys : axisStep g.py (↑g.h) ((i : Int) % (g.w * g.h) / g.w) (dirDeltaOn n 1) with
+    | none => rw [hxs, hys] at h; simp [nbrNone] at h
+    | some b =>
+      cases hzs : axisStep g.pz (↑g.d) ((i : Int) / (g.w * g.h)) (dirDeltaOn n 2) with
+      | none => rw [hxs, hys, hzs] at h; simp [nbrNone] at h
+      | some c =>
+        rw [hxs, hys, hzs] at h
+        simp only at h
+        obtain ⟨ra, _⟩ := axisStep_inv hx.1 hx.2 (dirDeltaOn_cases n hn 0) hxs
+        obtain ⟨rb, _⟩ := axisStep_inv hy.1 hy.2 (dirDeltaOn_cases n hn 1) hys
+        obtain ⟨rc, _⟩ := axisStep_inv hz.1 hz.2 (dirDeltaOn_cases n hn 2) hzs
+        obtain ⟨j0, _⟩ := encode_range ra.1 ra.2 rb.1 rb.2 rc.1 rc.2
+        split at h
+        · cases h
+        · injection h with hj
+          exact ⟨a, b, c, rfl, rfl, rfl, ra, rb, rc, by rw [← hj]; exact Int.toNat_of_nonneg j0⟩
+
+/-- a direction moves along exactly one axis -/
+theorem dirDeltaOn_single : ∀ n < 6,
+    (dirDeltaOn n 0 ≠ 0 ∧ dirDeltaOn n 1 = 0 ∧ dirDeltaOn n 2 = 0) ∨
+    (dirDeltaOn n 0 = 0 ∧ dirDeltaOn n 1 ≠ 0 ∧ dirDeltaOn n 2 = 0) ∨
+    (dirDeltaOn n 0 = 0 ∧ dirDeltaOn n 1 = 0 ∧ dirDeltaOn n 2 ≠ 0) := by decide +kernel
+
+/-- every (axis, ±1) is a direction of the switch -/
+theorem dir_exists : ∀ a < 3, ∀ s : Bool, ∃ n < 6, dirAxisDelta n = (a, if s then 1 else -1) := by decide +kernel
+
+end Strengths
